@@ -8,8 +8,8 @@ package relay
 import (
 	"context"
 	"fmt"
-	"sort"
 	"os"
+	"sort"
 	"strings"
 	stdsync "sync"
 	"testing"
